@@ -1113,16 +1113,28 @@ func genKinds(repo, out string, ps []*packages.Package) {
 			return ks[i].val < ks[j].val
 		})
 		var b strings.Builder
-		b.WriteString("/-\nGENERATED by /verif/extract from pkg/types (the `Kind` constants). Do not edit.\n-/\n")
-		b.WriteString("namespace Uniflow.Generated.Kinds\n\n/-- (constant name, numeric value) in increasing order. -/\ndef kinds : List (String × Nat) := [\n")
+		b.WriteString("/-\nGENERATED by /verif/extract from /repo/pkg/types (the `Kind` constants of value.go). Do not edit:\n")
+		b.WriteString("regenerated on every build. Every `Compare` method falls back to `compare(x.Kind(), KindOf(other))`\n")
+		b.WriteString("when the other value is of another kind, so these numbers *are* the cross-kind order.\n")
+		b.WriteString("`Uniflow.Value.Val.rank` reads them from here; `distinct` is re-proved on every build.\n-/\n")
+		b.WriteString("namespace Uniflow.Generated.Kinds\n\n")
+		lname := func(n string) string {
+			n = strings.TrimPrefix(n, "Kind")
+			return strings.ToLower(n)
+		}
+		for _, k := range ks {
+			fmt.Fprintf(&b, "@[simp] def %s : Nat := %s\n", lname(k.name), k.val)
+		}
+		b.WriteString("\n/-- The table in source order (name of the Go constant, its value). -/\ndef table : List (String × Nat) :=\n  [ ")
 		for i, k := range ks {
 			if i > 0 {
-				b.WriteString(",\n")
+				b.WriteString(",\n    ")
 			}
-			fmt.Fprintf(&b, "  (%q, %s)", k.name, k.val)
+			fmt.Fprintf(&b, "(%q, %s)", k.name, lname(k.name))
 		}
-		b.WriteString("\n]\n\nend Uniflow.Generated.Kinds\n")
-		_ = os.WriteFile(filepath.Join(out, "KindTable.lean"), []byte(b.String()), 0o644)
-		fmt.Printf("KindTable.lean: %d kinds\n", len(ks))
+		b.WriteString(" ]\n\n/-- Kind numbers are pairwise distinct and `KindUnknown` (the kind of the nil value) is the least. -/\n")
+		fmt.Fprintf(&b, "theorem distinct : (table.map Prod.snd).Nodup ∧ table.length = %d ∧ ∀ p ∈ table, unknown ≤ p.2 := by\n  decide\n\nend Uniflow.Generated.Kinds\n", len(ks))
+		_ = os.WriteFile(filepath.Join(out, "Kinds.lean"), []byte(b.String()), 0o644)
+		fmt.Printf("Kinds.lean: %d kinds\n", len(ks))
 	}
 }
